@@ -39,7 +39,8 @@ def progOrder (ops : List BOp) : List Nat := List.range (flatStmts ops).length
 
 theorem flat_is_sched (F : Funs) (ops : List BOp) (π : List Nat) (σ : Store) :
     flatExec F (flatStmts ops) π σ = Sched.exec (C02.sem F ops) π σ := by
-  unfold flatExec Sched.exec
+  rw [flatExec_def]
+  unfold Sched.exec
   congr 1
 
 /-- **Within a step the order does not matter**: every admissible order of the emitted statements
@@ -141,17 +142,16 @@ theorem flat_rangeFrom_eq_fold (F : Funs) : ∀ (l pre : List Stmt) (σ : Store)
     flatExec F (pre ++ l) (List.range' pre.length l.length) σ = l.foldl (fun σ s => exec F s σ) σ := by
   intro l
   induction l with
-  | nil => intro pre σ; simp [flatExec]
+  | nil => intro pre σ; simp [flatExec_def]
   | cons s l ih =>
     intro pre σ
     have h := ih (pre ++ [s]) (exec F s σ)
     simp only [List.length_append, List.length_singleton, List.append_assoc, List.singleton_append] at h
     simp only [List.length_cons, List.range'_succ, List.foldl_cons]
-    rw [← h]
-    unfold flatExec
+    rw [← h, flatExec_def, flatExec_def]
     simp only [List.foldl_cons]
     have : (pre ++ s :: l)[pre.length]? = some s := by simp
-    rw [this]
+    simp only [flatStep, this]
     rfl
 
 theorem flat_range_eq_fold (F : Funs) (l : List Stmt) (σ : Store) :
